@@ -495,7 +495,7 @@ class VAMMessage(CooperativeAwarenessMessage):
         if "track" in tpv.keys():
             self.vam["vam"]["vamParameters"]["vruHighFrequencyContainer"]["heading"][
                 "value"
-            ] = int(tpv["track"]*10)
+            ] = int(tpv["track"]*10) % 3600  # 360 degrees is north (0); 3600 shall not be used
         if "epd" in tpv.keys():
             self.vam["vam"]["vamParameters"]["vruHighFrequencyContainer"]["heading"][
                 "confidence"
